@@ -3,6 +3,7 @@ import itertools
 
 from ..sengine import SHarness, register, shard_fn, sat_and_count, _solver, _check, _row
 from ..alg import PyAlg, enc_rows, model_to_list
+from .. import bigpoints
 from ..core import Run, run_shards
 from .. import gen
 from ..gen import Vars, mk_graph, mk_digraph, mk_bip, formula_class
@@ -621,6 +622,7 @@ def run(tier):
                        'networkx.random_regular_graph returns a d-regular simple graph on nodes 0..v-1 (stub contract)']
     for h in HARNESSES:
         items = [(h.name, p) for p in h.points(tier)]
+        items += [(h.name, p) for p in bigpoints.big_points(h.name, tier)]
         items += gen.with_networkx_inputs(items)
         part = run_shards(shard_fn, items)
         if part.counts.get('selftest_mutants', 0) and not part.counts.get('selftest_distinguished', 0):
